@@ -56,6 +56,8 @@ def fp_api_op(rng, nh, npaths, allow_fail=True):
         return "T%d" % h
     if r < 0.90:
         return "C%d" % h
+    if r < 0.94:
+        return "W"
     return "O"
 
 
@@ -176,8 +178,10 @@ def fp_case_timers(rng, t0):
             return "C%d" % h
         if r < 0.70:
             return "T%d S%d,%d,%d,%d,0" % (h, h, rng.randint(1, 3), paths[h], ivs[h])              # same path
-        if r < 0.95:
+        if r < 0.90:
             return "T%d S%d,%d,%d,%d,0" % (h, h, rng.randint(1, 3), rng.randrange(npaths), rng.choice([3, 10]))
+        if r < 0.97:
+            return "W"
         return ""
     behs = [action() for _ in range(rng.randint(2, 8))]
     return "%d %d ; %s ; %s" % (t0, npaths, " ".join(ops), " | ".join(behs))
@@ -202,6 +206,8 @@ def fp_case(rng):
     for h in range(nh):
         if rng.random() < 0.8:
             ops.append("S%d,%d,%d,%d,0" % (h, rng.randint(1, 3), rng.randrange(npaths), rng.choice(INTERVALS)))
+    if rng.random() < 0.08:
+        ops.append("W")                      # walk-and-close-all teardown with the first stats in flight
     for _ in range(rng.randint(2, 10)):
         # one poll cycle with API calls landing in every phase of it
         for phase in range(5):
@@ -277,6 +283,7 @@ class SbCanon:
 def fp_canon(raw):
     """raw harness line -> (tokens for comparison, oracle groups, other_live)"""
     cn = SbCanon()
+    walks = []          # the raw v tokens: fs_poll handles ; script timers [; ?unknown]
     toks, groups, cur, other = [], [], None, None
     for t in raw.split():
         if t[0] == "q":
@@ -292,13 +299,16 @@ def fp_canon(raw):
         if t[0] == "p":
             h, cb, st, a, b = t[1:].split(",")
             toks.append("p%s,%s,%s,%s,%s" % (h, cb, st, cn.sb(a), cn.sb(b)))
+        elif t[0] == "v":
+            toks.append(t.split(";")[0])
+            walks.append(t)
         elif t[0] == "z":
             rc, live, oth = t[1:].split(",")
             other = int(oth)
             toks.append("z%s,%s" % (rc, live))
         else:
             toks.append(t)
-    return toks, groups, other
+    return toks, groups, (other, walks)
 
 
 def fp_model_input(case, groups):
@@ -323,6 +333,12 @@ def sb_cmp(s):
 
 def fp_monitor(case, toks, other_live=None):
     """Walks the script and the trace together.  Returns None or a reason."""
+    walks = []
+    if isinstance(other_live, tuple):
+        other_live, walks = other_live
+    walks = list(walks)
+    utimers = []        # ids of the script's timers that are not closed
+    uclosing = []       # ... that uv_close has been called on
     hd, ops, behs = case.split(";")
     npaths = int(hd.split()[1])
     top = ops.split()
@@ -385,6 +401,32 @@ def fp_monitor(case, toks, other_live=None):
                 H[h]["closing"] = True
                 H[h]["active"] = False
                 H[h]["reg"] = None
+        elif k == "W":
+            v = take("v")
+            if v is None:
+                return
+            raw = walks.pop(0) if walks else v
+            parts = raw[1:].split(";")
+            got_h = [int(x) for x in parts[0].split(",") if x]
+            got_u = [int(x) for x in parts[1].split(",") if x] if len(parts) > 1 else None
+            if len(parts) > 2:
+                err.append("uv_walk visited %s handle(s) the program did not create (an internal handle is exposed)"
+                           % parts[2][1:])
+                return
+            want_h = [j for j, x in enumerate(H) if not x["closed"]]
+            if got_h != want_h:
+                err.append("uv_walk visited the fs_poll handles %s, the open ones are %s" % (got_h, want_h))
+                return
+            # a timer that is closing is still in the handle queue until its close callback has run
+            if got_u is not None and not (set(utimers) <= set(got_u) <= set(utimers) | set(uclosing)):
+                err.append("uv_walk visited the timers %s, the program's open timers are %s (closing: %s)"
+                           % (got_u, utimers, uclosing))
+                return
+            for x in H:
+                if not x["closing"]:
+                    x["closing"], x["active"], x["reg"] = True, False, None
+            uclosing.extend(utimers)
+            del utimers[:]
         elif k == "O":
             o = take("o")
             if o is None:
@@ -453,7 +495,7 @@ def fp_monitor(case, toks, other_live=None):
             cbcount[0] += 1
             if k < len(behl):
                 for o in behl[k]:
-                    if o[0] in "ISTCO":
+                    if o[0] in "ISTCOW":
                         api(o)
 
     pending = {}    # path -> answers of the stats the pool has run and whose poll_cb has not run yet
@@ -530,8 +572,10 @@ def fp_monitor(case, toks, other_live=None):
     for t in top:
         if err:
             break
-        if t[0] in "ISTCO":
+        if t[0] in "ISTCOW":
             api(t)
+        elif t[0] == "U":
+            utimers.append(int(t[1:].split(",")[0]))
         elif t == "K":
             oracle = ORACLES[0][gi] if gi < len(ORACLES[0]) else {}
             gi += 1
@@ -545,6 +589,8 @@ def fp_monitor(case, toks, other_live=None):
         elif t == "Z":
             oracle = ORACLES[0][gi] if gi < len(ORACLES[0]) else {}
             gi += 1
+            uclosing.extend(utimers)
+            del utimers[:]
             n = 0
             while peek() is not None and peek()[0] in "sg" and not err and n < 1000:
                 n += 1
